@@ -1424,6 +1424,9 @@ variant('t-collector-early-return-on-complete', ['C08', 'C06'], 'rsocket/awaitab
         "        if is_complete:\n            self.is_done.set()\n        elif self._limit_count",
         "        if is_complete:\n            self.is_done.set()\n            return\n        if self._limit_count",
         kind='twin')
+variant('b-passed-argument-ignored', ['C01'], F,
+        "                self.fragment_size_bytes,\n                requires_length_header\n            )",
+        "                self.fragment_size_bytes\n            )", ('C01.g', 'get_next_fragment'))
 variant('b-send-error-noop', ['C12'], RB,
         "        self.send_frame(exception_to_error_frame(stream_id, exception))",
         "        logger().error('error on stream %s: %s', stream_id, exception)", ('C12.b', 'RSocketBase.send_error'))
